@@ -13,6 +13,8 @@ Section Limits.
   Notation lims := (c_lim cf).
   Notation n := (length (c_w cf)).
   Hypothesis Hwfc : wfc E cf.
+  (* the merit function polices the limits (Optimize(check_limits=True), the default) *)
+  Hypothesis Hchk : c_check cf = true.
 
   Definition good_k (s : state) : Prop := wfs E cf s /\ lims_ok E lims (knobs s).
   Definition row_ok (r : row) : Prop :=
@@ -33,7 +35,7 @@ Section Limits.
   Proof. intros (m & L & _) H. rewrite L. destruct (log s); [congruence|discriminate]. Qed.
 
   Lemma rt_write_good act k : lims_ok E lims k -> lims_ok E lims (rt_write E cf act k) /\ length (rt_write E cf act k) = length k.
-  Proof. intros H. unfold rt_write. split; [apply wk_lims; auto|apply wk_length]. Qed.
+  Proof. intros H. unfold rt_write. rewrite Hchk. split; [apply wk_lims; auto|apply wk_length]. Qed.
 
   (* ---- add_point_to_log, reload ---------------------------------------------------- *)
   Lemma add_point_good tg s : good_k s ->
@@ -77,7 +79,7 @@ Section Limits.
     pose proof (kn_inact_length _ _ _ _ Hk) as Lk. pose proof (kn_inact_length _ _ _ _ S4) as Lp.
     split.
     - split; [congruence|]. split; [congruence|]. intros x Hx. rewrite S1 in Hx. inversion Hx; subst. auto.
-    - eapply wk_lims_full; [exact S5| | | |].
+    - rewrite Hchk in S5. eapply wk_lims_full; [exact S5| | | |].
       + congruence.
       + unfold wfc in Hwfc. congruence.
       + unfold x_to_knobs. rewrite map2_length, X1, Lp, W1. lia.
@@ -196,7 +198,7 @@ Section Limits.
     post (opt_step E cf fuel nn tb a b s)
       (fun s' => good_k s' /\ ext_ok s s') (fun e s' => wfs E cf s' /\ ext_ok s s').
   Proof.
-    intros Hg Hr. unfold opt_step. destruct (pre_flags_data E cf a s) as (_ & Lp & _).
+    intros Hg Hr. unfold opt_step. rewrite (pre_clip_checked E cf s Hchk). destruct (pre_flags_data E cf a s) as (_ & Lp & _).
     assert (Xp : forall s', ext_ok (pre_flags E cf a s) s' -> ext_ok s s').
     { unfold ext_ok. rewrite Lp. auto. }
     eapply post_bind'; [apply step_core_good; [apply pre_flags_good; auto|rewrite Lp; auto]| |].
@@ -296,7 +298,7 @@ Section Limits.
   Lemma init_good k0 va0 s0 :
     init E cf k0 va0 = Ok s0 -> length k0 = n -> length va0 = n -> lims_ok E lims k0 -> good s0.
   Proof.
-    intros Hi Lk Lv Hl. unfold init in Hi.
+    intros Hi Lk Lv Hl. unfold init in Hi. rewrite Hchk in Hi.
     assert (G : good_k (pre_init E cf k0 va0)).
     { split; [|exact Hl]. split; [exact Lk|]. split; [exact Lv|]. intros x Hx. discriminate. }
     pose proof (add_point_good 0%N _ G) as P. rewrite Hi in P. cbn in P.
@@ -317,10 +319,14 @@ Section Limits.
   Qed.
 
   (* what "good" says about limits, spelled out *)
+  (* v is inside the closed limits on every side that is given (None = open side) *)
+  Definition inside (lo hi : option F) (v : F) : Prop :=
+    (forall a, lo = Some a -> e_ltb E v a = false) /\ (forall b, hi = Some b -> e_ltb E b v = false).
+
   Lemma good_meaning s : good s ->
     forall i lo hi v, nth_error lims i = Some (Some (lo, hi)) ->
-      (nth_error (knobs s) i = Some v -> e_ltb E v lo = false /\ e_ltb E hi v = false) /\
-      (forall r, In r (log s) -> nth_error (r_knobs r) i = Some v -> e_ltb E v lo = false /\ e_ltb E hi v = false).
+      (nth_error (knobs s) i = Some v -> inside lo hi v) /\
+      (forall r, In r (log s) -> nth_error (r_knobs r) i = Some v -> inside lo hi v).
   Proof.
     intros ([_ Hl] & Hr & _) i lo hi v Hi. split.
     - intros Hv. apply inlim_spec. eapply lims_ok_nth; eauto.
